@@ -82,7 +82,9 @@ Day(y, m, d) == DateL(Epoch(y, m, d, 0, 0, 0, 0), Epoch(y, m, d, 23, 59, 59, 0),
 DateLits == { Day(2017, 5, 1), Day(2017, 5, 2), Day(2017, 4, 30),
               DateL(T0 + 54000, T0 + 57599, "2017-05-01 15"), DateL(T0 + 54000, T0 + 54059, "2017-05-01 15:00"),
               DateL(T0 + 54000, T0 + 54000, "2017-05-01 15:00:00"), DateL(T0 + 54060, T0 + 54060, "2017-05-01 15:01:00"),
-              DateL(T0 + 86399, T0 + 86399, "2017-05-01 23:59:59") }
+              DateL(T0 + 86399, T0 + 86399, "2017-05-01 23:59:59"),
+              \* the documented free-form spelling, read the UK way: day/month/year
+              DateL(T0, T0 + 86399, "01/05/2017"), DateL(T0 + 86400, T0 + 172799, "02/05/2017") }
 DateAtoms == { A1("modified", op, l, "date/" \o op) : op \in OrdOps, l \in DateLits }
 
 ColPairs == { <<"size", "hardlinks">>, <<"uid", "gid">>, <<"size", "line_count">>, <<"length(name)", "hardlinks">>,
